@@ -160,4 +160,18 @@ Lemma is_tp_dec_zero n (HS : rmat) : is_tp_dec F n 0 HS = true <-> row0_zero n H
 Proof. rewrite is_tp_dec_spec. split; intros H j Hj.
   - destruct (H j Hj) as [A B]. apply (k_antisym F); [exact A|]. now replace (- 0) with 0 in B by ring.
   - rewrite H by exact Hj. split; [apply k_refl|]. replace (- 0) with 0 by ring. apply k_refl. Qed.
+(* ------------------------------------------------------------------ eigenvalue clipping of the inequality projection *)
+Lemma clip_neg_nonneg (l : list F) : Forall (fun x => 0 <= x) (clip_neg l).
+Proof. unfold clip_neg. apply Forall_forall. intros y Hy. apply in_map_iff in Hy. destruct Hy as [x [<- _]].
+  unfold fltb. destruct (kleb F 0 x) eqn:E; cbn [negb]; [now apply k_leb|apply k_refl]. Qed.
+Lemma clip_neg_fix (l : list F) : Forall (fun x => 0 <= x) l -> clip_neg l = l.
+Proof. unfold clip_neg. induction 1 as [|x l Hx Hl IH]; [reflexivity|]. cbn [map]. rewrite IH. unfold fltb.
+  apply k_leb in Hx. now rewrite Hx. Qed.
+Lemma clip_neg_all_negative (l : list F) : Forall (fun x => x <= 0 /\ x <> 0) l -> clip_neg l = map (fun _ => 0) l.
+Proof. unfold clip_neg. induction 1 as [|x l [Hx Hne] Hl IH]; [reflexivity|]. cbn [map]. rewrite IH. unfold fltb.
+  destruct (kleb F 0 x) eqn:E; [|reflexivity]. apply k_leb in E. exfalso. apply Hne. now apply (k_antisym F). Qed.
+Lemma clip_neg_spec (l : list F) :
+  Forall (fun x => 0 <= x) (clip_neg l) /\ (Forall (fun x => 0 <= x) l -> clip_neg l = l) /\
+  (Forall (fun x => x <= 0 /\ x <> 0) l -> clip_neg l = map (fun _ => 0) l) /\ length (clip_neg l) = length l.
+Proof. split; [apply clip_neg_nonneg|]. split; [apply clip_neg_fix|]. split; [apply clip_neg_all_negative|]. unfold clip_neg. apply map_length. Qed.
 End Misc.
